@@ -191,6 +191,14 @@ func (rm *ResponseManager) abortRequest(ctx context.Context, requestID graphsync
 // new request sets up a new request
 func (rm *ResponseManager) newRequest(ctx context.Context, p peer.ID, request gsmsg.GraphSyncRequest) {
 
+	// a requestor that resumes a request sends it again under the same ID, after cancelling the earlier
+	// run. While that run's task is still executing, its table entry and its task in the queue (tasks are
+	// keyed by request ID) cannot be replaced: the new request waits until the task has ended
+	if running, ok := rm.inProgressResponses[request.ID()]; ok && running.state == graphsync.Running {
+		running.replacement = &request
+		return
+	}
+
 	// protect the connection
 	rm.connManager.Protect(p, request.ID().Tag())
 
@@ -389,6 +397,12 @@ func (rm *ResponseManager) finishTask(task *peertask.Task, p peer.ID, err error)
 	response, ok := rm.inProgressResponses[requestID]
 	if !ok {
 		return
+	}
+	if response.replacement != nil {
+		// a request that arrived under this ID while the task was running starts now
+		replacement := *response.replacement
+		response.replacement = nil
+		defer rm.newRequest(rm.ctx, response.peer, replacement)
 	}
 	if response.networkError && err != queryexecutor.ErrNetworkError {
 		// the executor finished or paused without seeing the network error signal: the response
